@@ -12,6 +12,7 @@ import random
 
 import common
 import muxgen
+import isogen
 import readcheck
 
 LEVEL = "proof"
@@ -22,6 +23,13 @@ def reader_files(rng, quick):
     files = [(n, d) for n, d in readcheck.canned() if len(d) < 6000]
     for name, r, _ in readcheck.valid_files(rng, 4 if quick else 30):
         files.append((name, bytes(r.data)))
+    # optional structures the muxer never writes: ES_Descriptor flags with their optional fields (dependsOn_ES_ID, URL, OCR_ES_Id), a data reference
+    # with a location string, padded descriptor lengths — every read inside them is a fault point like any other
+    for j, fl in enumerate((0x80, 0x40, 0x20, 0xe0) if not quick else (0x80, 0xe0)):
+        url = isogen.Box("dinf", [isogen.full("dref", 0, 0, [isogen.F(4, 1, "count"), isogen.full("url ", 0, 0, [isogen.Raw(b"http://example.com/media\0")])])])
+        tr = {"id": 1, "kind": "aac", "ts": 48000, "sizes": [4, 5, 6], "chunks": [3], "deltas": [1024] * 3, "cts": None, "sync": None, "co64": False,
+              "entry": isogen.mp4a(2, 3, 2, 128000, 48000, pad=j % 3, es_flags=fl), "dinf": url if j % 2 == 0 else None}
+        files.append(("esflags_%02x" % fl, bytes(isogen.build_movie([tr], "moov_first")[0].data)))
     return files
 
 
